@@ -222,7 +222,15 @@ def gen_mixed_frames(rng, lnk, n, cfg, counters, style=None, variant_fault=False
     p_fault = {"clean": 0.0, "mutated": 0.5, "mixed": 0.25, "nested": 0.15}[style]
     p_garb = {"clean": 0.0, "mutated": 0.15, "mixed": 0.3, "nested": 0.1}[style]
     modes = modes_for(cfg["msgmode"]) if rng.random() < 0.8 else None
+    if rng.random() < 0.05:
+        data, note = device.text_preamble(rng)
+        frames.append({"kind": "garbage", "hex": data.hex(), "faults": [], "note": note})
+        counters.hit("fault_text_preamble")
     for i in range(n):
+        if rng.random() < 0.015:
+            data, note = device.nmea_runaway(rng)
+            frames.append({"kind": "garbage", "hex": data.hex(), "faults": [], "note": note})
+            counters.hit("fault_runaway_line")
         if rng.random() < p_garb:
             frames.append({"kind": "garbage", "hex": device.garbage(rng, n=rng.choice((1, 2, 3, 5, 9))).hex(), "faults": [], "note": "garbage"})
             counters.hit("fault_noise")
